@@ -10,14 +10,29 @@ from bzfmt import BitWriter
 
 
 def tlc_files(mode, n, seed, maxsyms=60, workers=8, depth=8, tag="bz"):
-    """n file descriptions (approximately) from BZ2.tla."""
-    traces = max(1, (n + depth - 1) // depth)
-    per = max(1, traces // workers)
-    behs, r = inproc.gen("BZ2", dict(Mode=mode, MaxSyms=maxsyms), ["Export"], "%s_%s" % (tag, mode), workers=workers,
-                         simulate=per, depth=depth, seed=seed, timeout=900)
-    if behs is None:
-        raise vlib.Infra("BZ2.tla generator failed:\n" + r.text[-2000:])
-    return behs
+    """About n distinct file descriptions from BZ2.tla (simulation mode).  Several single-worker TLC
+    processes with different seeds run side by side (workers of one TLC process share the seed)."""
+    from concurrent.futures import ThreadPoolExecutor
+    procs = max(1, min(workers, (n + depth - 1) // depth))
+    steps = depth * (2 if mode == "defect" else 1)        # a defect file takes two steps
+    per = max(1, (n + procs * depth - 1) // (procs * depth))
+
+    def one(i):
+        behs, r = inproc.gen("BZ2", dict(Mode=mode, MaxSyms=maxsyms), ["Export"], "%s_%s_%d" % (tag, mode, i), workers=1,
+                             simulate=per, depth=steps, seed=seed * 1000 + i, timeout=900, xmx="2g")
+        if behs is None:
+            raise vlib.Infra("BZ2.tla generator failed:\n" + r.text[-2000:])
+        return behs
+    with ThreadPoolExecutor(max_workers=procs) as ex:
+        parts = list(ex.map(one, range(procs)))
+    out, seen = [], set()
+    for part in parts:
+        for b in part:
+            k = json.dumps(b["file"], sort_keys=True)
+            if k not in seen:
+                seen.add(k)
+                out.append(b)
+    return out
 
 
 # ------------------------------------------------------------------ serialisation of descriptions
@@ -181,7 +196,7 @@ def file_bytes(f):
 def calibrate(rep, seed, n=8):
     """TLC computes bytes and plaintext of a few files itself; the serialiser above and the inspector
     (bzfmt.inspect) must agree bit for bit / byte for byte with the specification."""
-    behs = tlc_files("calibrate", n, seed, maxsyms=30, workers=4, depth=2, tag="cal")
+    behs = tlc_files("calibrate", n, seed, maxsyms=30, workers=4, depth=2, tag="cal")[:n]
     bad = []
     for b in behs:
         f = b["file"]
